@@ -27,10 +27,40 @@ fn long_string(rng: &mut Rng, alpha: &[char], base: Option<&str>) -> String {
                 let d = rng.below(100000);
                 s.push_str(&d.to_string());
             }
+            4 if rng.chance(1, 2) => {
+                // a digit run around and beyond the width of every machine integer, with zero padding
+                for _ in 0..rng.below(13) { s.push('0'); }
+                let m = *rng.pick(&[1usize, 5, 9, 10, 18, 19, 20, 21, 22, 30, 39, 40, 45]);
+                s.push((b'1' + rng.below(9) as u8) as char);
+                for _ in 1..m { s.push((b'0' + rng.below(10) as u8) as char); }
+            }
             _ => s.push(*rng.pick(alpha)),
         }
     }
     s
+}
+
+/// the same string with the zero padding in front of one of its digit runs changed
+fn repad(rng: &mut Rng, a: &str) -> String {
+    let cs: Vec<char> = a.chars().collect();
+    let starts: Vec<usize> = (0..cs.len()).filter(|&i| cs[i].is_ascii_digit() && (i == 0 || !cs[i - 1].is_ascii_digit())).collect();
+    if starts.is_empty() {
+        return format!("{a}{}", "0".repeat(1 + rng.below(3) as usize));
+    }
+    let at = *rng.pick(&starts);
+    let mut end = at;
+    while end < cs.len() && cs[end] == '0' { end += 1; }
+    let mut out: String = cs[..at].iter().collect();
+    if end > at && rng.chance(1, 2) {
+        // strip some or all of the existing zeros (keep one digit if the run is all zeros)
+        let all_zero = end == cs.len() || !cs[end].is_ascii_digit();
+        let keep = if all_zero { 1 } else { rng.below((end - at) as u64) as usize };
+        out.extend(std::iter::repeat('0').take(keep));
+    } else {
+        out.extend(std::iter::repeat('0').take(end - at + 1 + rng.below(6) as usize));
+    }
+    out.extend(cs[end..].iter());
+    out
 }
 
 pub fn run(args: &Args) {
@@ -69,7 +99,11 @@ pub fn run(args: &Args) {
     let pairs = args.num("pairs", 2000);
     for _ in 0..pairs {
         let a = long_string(&mut rng, &chars, None);
-        let b = if rng.chance(3, 4) { long_string(&mut rng, &chars, Some(&a)) } else { long_string(&mut rng, &chars, None) };
+        let b = match rng.below(8) {
+            0 | 1 => repad(&mut rng, &a),
+            2 => long_string(&mut rng, &chars, None),
+            _ => long_string(&mut rng, &chars, Some(&a)),
+        };
         let r = (|| -> Result<_, String> {
             Ok((vercmp(&a, &b)?, vercmp(&b, &a)?, vercmp(&a, &a)?, vercmp(&b, &b)?))
         })();
